@@ -1788,6 +1788,13 @@ pub fn gen_plan_exact_disturbed(seed: u64, thorough: bool, pool: &[Pos], mates: 
     g.layout = rng.next_u64();
     let poll = p.knobs.poll_interval;
     let quiet = |pos: PosSpec, go: GoSpec, events: Vec<Ev>| Cycle { newgame: false, pos, pre_lines: vec![], go, ns_per_node: 1000, gap_ns: 1_000_000, jumps: vec![], stop_before_dequeue: false, events, post_lines: vec![] };
+    if rng.chance(1, 3) {
+        // variant C: ucinewgame / another game's position / noise arrive during the search
+        if let Some(d) = disturbance_cycle(&mut rng, pool, poll) {
+            p.cycles.insert(at, d);
+        }
+        return p;
+    }
     if rng.chance(1, 2) {
         // variant A: a position for another game arrives during the search
         let mut lines = vec![other.render()];
@@ -1859,6 +1866,33 @@ pub fn gen_plan_twin(seed: u64, thorough: bool, pool: &[Pos], mates: &[(Pos, u32
     p
 }
 
+/// A search on some other position that is interrupted while protocol noise arrives: `ucinewgame`
+/// (to be applied to the NEXT game, whose position the following cycle sets), a position of another
+/// game, debug toggles. Whatever the engine defers from here must not leak into the next cycle.
+fn disturbance_cycle(rng: &mut Rng, pool: &[Pos], poll: u64) -> Option<Cycle> {
+    let searched = random_game(rng, pool, 8, false);
+    if !searched.root().has_legal_move() {
+        return None;
+    }
+    let mut g = GoSpec::none();
+    g.infinite = true;
+    g.layout = rng.next_u64();
+    let mut lines: Vec<String> = Vec::new();
+    if rng.chance(2, 3) {
+        lines.push("ucinewgame".into());
+    }
+    if rng.chance(1, 4) {
+        lines.push(random_game(rng, pool, 6, false).render());
+    }
+    if rng.chance(1, 4) {
+        lines.push(if rng.chance(1, 2) { "debug on".into() } else { "isready".into() });
+    }
+    let at = poll * (1 + rng.below(3));
+    let mut events = vec![Ev { at_node: at, lines }];
+    events.push(Ev { at_node: at + poll * rng.below(3), lines: vec!["stop".into()] });
+    Some(Cycle { newgame: false, pos: PosSpec::Set { fen: searched.fen.clone(), moves: searched.moves.clone() }, pre_lines: vec![], go: g, ns_per_node: 1000, gap_ns: 1_000_000, jumps: vec![], stop_before_dequeue: false, events, post_lines: vec![] })
+}
+
 /// C10: histories with repetitions and clocks 0..150 in materially imbalanced positions.
 pub fn gen_plan_draw(seed: u64, thorough: bool, imbalanced: &[Pos]) -> EnginePlan {
     let mut rng = Rng::new(seed);
@@ -1915,6 +1949,11 @@ pub fn gen_plan_draw(seed: u64, thorough: bool, imbalanced: &[Pos]) -> EnginePla
             go.searchmoves_picks = vec![rng.below(256) as u32];
         }
         let set_cycle = Cycle { newgame: ci == 0 || rng.chance(1, 4), pos: PosSpec::Set { fen: game.fen.clone(), moves: game.moves.clone() }, pre_lines: vec![], go, ns_per_node: 1000, gap_ns: 1_000_000, jumps: vec![], stop_before_dequeue: false, events: vec![], post_lines: vec![] };
+        if rng.chance(1, 5) {
+            if let Some(d) = disturbance_cycle(&mut rng, imbalanced, knobs.poll_interval) {
+                cycles.push(d);
+            }
+        }
         cycles.push(set_cycle.clone());
         if rng.chance(1, 5) {
             // a position command the engine must reject (illegal move, possibly the very first one)
